@@ -1,5 +1,6 @@
 (* C08 — Exactly one header commit per request, with the status set before the body.
    Property theorems only. *)
+From Rux Require Import Base Str Chain Dispatch Table Sys SysHistory SysMore.
 From Rux Require Import Base Writer WriterFacts.
 Open Scope Z_scope.
 
@@ -33,8 +34,38 @@ Theorem C08_legacy_F08_refuted :
   log (ensure (fold_left (wstep_gen false) [WFlush; WSetStatus 404; WWrite [120%N]] (winit []))) = [F; WH 404; W [120%N]].
 Proof. exact legacy_flush_refuted. Qed.
 
+(* end to end, through the whole router function (SysMore.v): EVERY request that sys_serve completes - any route table,
+   any handler programs, with or without the OnPanic/OnError hooks, recovered panics included - commits the header
+   exactly once and before anything else reaches the underlying writer *)
+Theorem C08_end_to_end_one_commit : forall progs hooks s m p sc pooled x started,
+  fst (sys_serve progs hooks s m p sc pooled) = Some (Done x started) ->
+  count_wh (log (w x)) = 1%nat /\ exists c rest, log (w x) = WH c :: rest /\ count_wh rest = 0%nat.
+Proof. exact sys_one_commit. Qed.
+
+(* a request whose panic escapes (no OnPanic hook, or the hook panics too) has sent either nothing at all or a header
+   first and no second header *)
+Theorem C08_end_to_end_escaped : forall progs hooks s m p sc pooled pv x started,
+  fst (sys_serve progs hooks s m p sc pooled) = Some (Escaped pv x started) ->
+  (count_wh (log (w x)) <= 1)%nat /\
+  ((length (w x) = -1 /\ log (w x) = []) \/
+   (0 <= length (w x) /\ exists c rest, log (w x) = WH c :: rest /\ count_wh rest = 0%nat)).
+Proof. exact sys_escaped_commit. Qed.
+
+(* ... and so does every request of every history served by one router *)
+Theorem C08_history_one_commit : forall progs hooks h s,
+  Forall (fun r => match r with
+                   | Some (Done x _) =>
+                       count_wh (log (w x)) = 1%nat /\ exists c rest, log (w x) = WH c :: rest /\ count_wh rest = 0%nat
+                   | Some (Escaped _ x _) => (count_wh (log (w x)) <= 1)%nat
+                   | _ => True
+                   end) (sys_outcomes progs hooks s h).
+Proof. exact sys_outcomes_one_commit. Qed.
+
 Print Assumptions C08_log.
 Print Assumptions C08_one_commit.
 Print Assumptions C08_status.
 Print Assumptions C08_empty.
 Print Assumptions C08_legacy_F08_refuted.
+Print Assumptions C08_end_to_end_one_commit.
+Print Assumptions C08_end_to_end_escaped.
+Print Assumptions C08_history_one_commit.
